@@ -82,6 +82,18 @@ func runWriteToSim(c *Ctx, ruleClose, ruleCount, rulePromo, ruleSize, ruleDelta 
 		c.Unk(first, "WriteTo simulation: fields of SMF (Tracks, format, track count, NoRunningStatus, TimeFormat)", "-", "not resolved")
 		return
 	}
+	// the value may have been written, read or queried before and its exported Tracks changed since: every other
+	// unexported field (caches, "finished" latches) holds an arbitrary value left over from earlier calls
+	if sv, ok := st.heap[sp.Obj].(*StructV); ok {
+		keep := map[int]bool{fieldIndex(sv.T, "format"): true, fieldIndex(sv.T, "numTracks"): true}
+		for i := 0; i < sv.T.NumFields(); i++ {
+			f := sv.T.Field(i)
+			if f.Exported() || keep[i] {
+				continue
+			}
+			sv.Fields[i] = ex.topOf(st, f.Type(), "left-over:"+f.Name())
+		}
+	}
 	if os.Getenv("ABSDEBUG") != "" {
 		forkProfile = map[string]int{}
 		defer func() {
